@@ -1,5 +1,6 @@
 import Glas.Props.C02
 import Glas.Props.C02Marks
+import Glas.Props.C02Stuck
 /-!
 # C10 — every IDE query answers on every workspace, however broken: what is proved
 
@@ -30,5 +31,12 @@ theorem parse_total (s : List Char) :
     Glas.SyntaxCmd.parseModel (bound glasProg (Glas.Props.C02Marks.parserToks s).length) s =
       .error ("PANIC " ++ "stuck") :=
   Glas.Props.C02Marks.C01_total s
+
+/-- the first stage of every query, without exception: on every text the model of `parse_module` returns a
+(lossless) tree - the look-ahead guard cannot fire either (`C02_never_stuck`) -/
+theorem parse_always (s : List Char) :
+    ∃ t σ, Glas.SyntaxCmd.parseModel (bound glasProg (Glas.Props.C02Marks.parserToks s).length) s =
+        .ok (t, σ, Glas.SyntaxCmd.lexText s) ∧ t.leaves = Glas.SyntaxCmd.lexText s :=
+  Glas.Props.C02Stuck.C01_always s
 
 end Glas.Props.C10
